@@ -1,4 +1,9 @@
 import DmrVerif.Model.PduCsbk
+import DmrVerif.Model.PduDataHeader
+import DmrVerif.Model.PduFullLc
+import DmrVerif.Model.PduShort
+import DmrVerif.Model.PduRate
+import DmrVerif.Model.PduUdp
 
 /-!
 Line-protocol operations for the PDU / element codecs (C03).
@@ -118,6 +123,145 @@ def csbkParse : List String → Option Csbk
     pure ⟨← pBool lb, ← pBool pf, ← pNat fid, ← pNat crc, ← csbkPayloadParse v (args a)⟩
   | _ => none
 
+/-! ### data header -/
+
+def dhCrc (bits : Bits) : Nat := crc16 0xCCCC (bytesToBits (bitsToBytes bits))
+
+def dhPayloadArgs : DhPayload → String × List String
+  | .confirmed g a poc sap dst src fmf btf rsf ns fsn =>
+    ("confirmed", [sBool g, sBool a] ++ [poc, sap, dst, src, fmf, btf, rsf, ns, fsn].map toString)
+  | .unconfirmed g a poc sap dst src fmf btf fsn =>
+    ("unconfirmed", [sBool g, sBool a] ++ [poc, sap, dst, src, fmf, btf, fsn].map toString)
+  | .response a sap dst src fmf btf cls typ st =>
+    ("response", [sBool a] ++ [sap, dst, src, fmf, btf, cls, typ, st].map toString)
+  | .shortDataDefined g a ab sap dst src ddf sarq fmf pad =>
+    ("shortDataDefined", [sBool g, sBool a] ++ [ab, sap, dst, src, ddf, sarq, fmf].map toString ++ [sBits pad])
+  | .udt g a e of sap fmt dst src pn ab sf op =>
+    ("udt", [sBool g, sBool a, sBool e] ++ [of, sap, fmt, dst, src, pn, ab, sf, op].map toString)
+
+def dhPayloadParse (v : String) (a : List String) : Option DhPayload :=
+  match v, a with
+  | "confirmed", [g, a, poc, sap, dst, src, fmf, btf, rsf, ns, fsn] => do
+    pure (.confirmed (← pBool g) (← pBool a) (← pNat poc) (← pNat sap) (← pNat dst) (← pNat src) (← pNat fmf)
+      (← pNat btf) (← pNat rsf) (← pNat ns) (← pNat fsn))
+  | "unconfirmed", [g, a, poc, sap, dst, src, fmf, btf, fsn] => do
+    pure (.unconfirmed (← pBool g) (← pBool a) (← pNat poc) (← pNat sap) (← pNat dst) (← pNat src) (← pNat fmf)
+      (← pNat btf) (← pNat fsn))
+  | "response", [a, sap, dst, src, fmf, btf, cls, typ, st] => do
+    pure (.response (← pBool a) (← pNat sap) (← pNat dst) (← pNat src) (← pNat fmf) (← pNat btf) (← pNat cls)
+      (← pNat typ) (← pNat st))
+  | "shortDataDefined", [g, a, ab, sap, dst, src, ddf, sarq, fmf, pad] => do
+    pure (.shortDataDefined (← pBool g) (← pBool a) (← pNat ab) (← pNat sap) (← pNat dst) (← pNat src) (← pNat ddf)
+      (← pNat sarq) (← pNat fmf) (← pBits pad))
+  | "udt", [g, a, e, of, sap, fmt, dst, src, pn, ab, sf, op] => do
+    pure (.udt (← pBool g) (← pBool a) (← pBool e) (← pNat of) (← pNat sap) (← pNat fmt) (← pNat dst) (← pNat src)
+      (← pNat pn) (← pNat ab) (← pNat sf) (← pNat op))
+  | _, _ => none
+
+def dhFields (p : DataHeader) : String :=
+  let (v, a) := dhPayloadArgs p.payload
+  " ".intercalate [sBits p.crc, v, commas a]
+
+def dhParse : List String → Option DataHeader
+  | [crc, v, a] => do pure ⟨← pBits crc, ← dhPayloadParse v (args a)⟩
+  | _ => none
+
+/-! ### full link control -/
+
+def flcPayloadArgs : FlcPayload → String × List String
+  | .unitToUnit so t s => ("unitToUnit", soArgs so ++ [toString t, toString s])
+  | .group so g s => ("group", soArgs so ++ [toString g, toString s])
+  | .gpsInfo pe lon lat => ("gpsInfo", [toString pe, toString lon, toString lat])
+  | .talkerAliasHeader fmt len msb data => ("talkerAliasHeader", [toString fmt, toString len, sBool msb, sBytes data])
+  | .talkerAliasBlock c data => ("talkerAliasBlock", [toString c, sBytes data])
+
+def flcPayloadParse (v : String) (a : List String) : Option FlcPayload :=
+  match v, a with
+  | "unitToUnit", [e, p, r, b, o, pr, t, s] => do
+    pure (.unitToUnit (← soParse [e, p, r, b, o, pr]) (← pNat t) (← pNat s))
+  | "group", [e, p, r, b, o, pr, t, s] => do
+    pure (.group (← soParse [e, p, r, b, o, pr]) (← pNat t) (← pNat s))
+  | "gpsInfo", [pe, lon, lat] => do pure (.gpsInfo (← pNat pe) (← intOfString lon) (← intOfString lat))
+  | "talkerAliasHeader", [fmt, len, msb, data] => do
+    pure (.talkerAliasHeader (← pNat fmt) (← pNat len) (← pBool msb) (← pBytes data))
+  | "talkerAliasBlock", [c, data] => do pure (.talkerAliasBlock (← pNat c) (← pBytes data))
+  | _, _ => none
+
+def flcFields (p : FullLc) : String :=
+  let (v, a) := flcPayloadArgs p.payload
+  " ".intercalate [sBool p.protectFlag, toString p.fid, sBits p.crc, v, commas a]
+
+def flcParse : List String → Option FullLc
+  | [pf, fid, crc, v, a] => do pure ⟨← pBool pf, ← pNat fid, ← pBits crc, ← flcPayloadParse v (args a)⟩
+  | _ => none
+
+/-! ### short link control, PI header -/
+
+/-- `int2ba(CRC8.calculate(bits), length=8, endian="little")` in index order -/
+def slcCrc (bits : Bits) : Bits := (natToBits 8 (crc8 bits)).reverse
+
+def slcPayloadArgs : SlcPayload → String × List String
+  | .null => ("null", [])
+  | .activity t1 t2 a1 a2 => ("activity", [toString t1, toString t2, sBits a1, sBits a2])
+
+def slcPayloadParse (v : String) (a : List String) : Option SlcPayload :=
+  match v, a with
+  | "null", [] => some .null
+  | "activity", [t1, t2, a1, a2] => do pure (.activity (← pNat t1) (← pNat t2) (← pBits a1) (← pBits a2))
+  | _, _ => none
+
+def slcFields (p : ShortLc) : String :=
+  let (v, a) := slcPayloadArgs p.payload
+  " ".intercalate [sBits p.crc, v, if a.isEmpty then "-" else commas a]
+
+def slcParse : List String → Option ShortLc
+  | [crc, v, a] => do pure ⟨← pBits crc, ← slcPayloadParse v (args a)⟩
+  | _ => none
+
+def piCrc : Bits → Nat := crc16 0x6969
+
+/-! ### rate-coded data blocks -/
+
+def rateCfgByName : String → Option (RateCfg × Nat)
+  | "12" => some (rate12, 0x0F0)
+  | "34" => some (rate34, 0x1FF)
+  | "1" => some (rate1, 0x10F)
+  | _ => none
+
+def rateTypeByName : String → Option RateType
+  | "unconfirmed" => some .unconfirmed
+  | "confirmed" => some .confirmed
+  | "unconfirmedLast" => some .unconfirmedLast
+  | "confirmedLast" => some .confirmedLast
+  | "undefined" => some .undefined
+  | _ => none
+
+/-- `CRC9.calculate_from_parts(data, dbsn, crc32, mask)` -/
+def rateCrc9 (mask : Nat) (data : Bytes) (dbsn crc32 : Nat) : Nat :=
+  crc9 mask (bytesToBits data ++ ((if crc32 = 0 then [] else natToBits 32 crc32) ++ natToBits 7 dbsn))
+
+def rateFields (p : RateData) : String :=
+  " ".intercalate [sBytes p.data, toString p.dbsn, toString p.crc9, toString p.crc32]
+
+/-! ### UDP/IPv4 compressed header -/
+
+def sOptNat : Option Nat → String
+  | some v => toString v
+  | none => "-"
+
+def pOptNat (s : String) : Option (Option Nat) := if s == "-" then some none else (pNat s).map some
+
+def udpFields (p : UdpHeader) : String :=
+  " ".intercalate [toString p.ipv4Identification, toString p.sourceIpAddressId, toString p.destinationIpAddressId,
+    toString p.udpSourcePort, toString (UdpHeader.portMember p.udpSourcePort),
+    toString p.udpDestinationPort, toString (UdpHeader.portMember p.udpDestinationPort),
+    sOptNat p.extendedHeader1, sOptNat p.extendedHeader2, sBits p.userData]
+
+def udpParse : List String → Option UdpHeader
+  | [id, sip, dip, sp, _, dp, _, e1, e2, ud] => do
+    pure ⟨← pNat id, ← pNat sip, ← pNat dip, ← pNat sp, ← pNat dp, ← pOptNat e1, ← pOptNat e2, ← pBits ud⟩
+  | _ => none
+
 def pduOp (op : String) (a : List String) : Option String :=
   match op, a with
   | "elem", [n, v] => do
@@ -141,6 +285,71 @@ def pduOp (op : String) (a : List String) : Option String :=
     let p ← csbkParse f
     let q := Csbk.init csbkCrc p
     some (sBits q.enc)
+  | "dh.dec", [bs] => do
+    let bs ← pBits bs
+    some (match DataHeader.dec dhCrc bs with
+      | .ok p => "ok " ++ dhFields p ++ " " ++ sBits p.enc
+      | .error e => e.toString)
+  | "dh.enc", f => do
+    let p ← dhParse f
+    some (sBits (DataHeader.init dhCrc p).enc)
+  | "flc.dec", [bs] => do
+    let bs ← pBits bs
+    some (match FullLc.dec bs with
+      | .ok p => "ok " ++ flcFields p ++ " " ++ sBits p.enc
+      | .error e => e.toString)
+  | "flc.enc", f => do
+    let p ← flcParse f
+    some (sBits p.enc)
+  | "slc.dec", [bs] => do
+    let bs ← pBits bs
+    some (match ShortLc.dec slcCrc bs with
+      | .ok p => "ok " ++ slcFields p ++ " " ++ sBits p.enc
+      | .error e => e.toString)
+  | "slc.enc", f => do
+    let p ← slcParse f
+    some (sBits (ShortLc.init slcCrc p).enc)
+  | "pi.dec", [bs] => do
+    let bs ← pBits bs
+    some (match PiHeader.dec piCrc bs with
+      | .ok p => "ok " ++ sBytes p.data ++ " " ++ toString p.crc ++ " " ++ sBits p.enc
+      | .error e => e.toString)
+  | "pi.enc", [d, _] => do
+    let d ← pBytes d
+    some (sBits (PiHeader.init piCrc d).enc)
+  | "rate.dec", [c, t, bs] => do
+    let (cfg, mask) ← rateCfgByName c
+    let t ← rateTypeByName t
+    let bs ← pBits bs
+    some (match RateData.dec cfg (rateCrc9 mask) t bs with
+      | .ok p => "ok " ++ rateFields p ++ " " ++ sBits (RateData.enc cfg p)
+      | .error e => e.toString)
+  | "rate.enc", [c, t, d, dbsn, c9, c32] => do
+    let (cfg, mask) ← rateCfgByName c
+    let t ← rateTypeByName t
+    let a : RateData := ⟨← pBytes d, ← pNat dbsn, ← pNat c9, ← pNat c32⟩
+    some (match RateData.init cfg (rateCrc9 mask) t a with
+      | .ok p => toString p.crc9 ++ " " ++ sBits (RateData.enc cfg p)
+      | .error e => e.toString)
+  | "rate.convert", [c, t, d, dbsn, c9, c32, t2] => do
+    let (cfg, mask) ← rateCfgByName c
+    let t ← rateTypeByName t
+    let t2 ← rateTypeByName t2
+    let a : RateData := ⟨← pBytes d, ← pNat dbsn, ← pNat c9, ← pNat c32⟩
+    some (match RateData.init cfg (rateCrc9 mask) t a with
+      | .ok p =>
+        (match RateData.convert cfg (rateCrc9 mask) p t2 with
+         | .ok q => "ok " ++ rateFields q ++ " " ++ sBits (RateData.enc cfg q)
+         | .error e => e.toString)
+      | .error e => e.toString)
+  | "udp.dec", [bs] => do
+    let bs ← pBits bs
+    some (match UdpHeader.dec bs with
+      | .ok p => "ok " ++ udpFields p ++ " " ++ sBits p.enc
+      | .error e => e.toString)
+  | "udp.enc", f => do
+    let p ← udpParse f
+    some (sBits p.enc)
   | _, _ => none
 
 end Dmr.Driver
